@@ -140,7 +140,8 @@ def allocOracle (bits : Nat) (f : Array Nat) (prev hint : Option Nat) (total : N
   | [cs, fh] =>
     match cs.toNat?, fatOf fh with
     | some c, some f' =>
-      -- known quirk (Props/C03fat `alloc_wraparound_counterexample`): FAT12 `find_free` with start == end == 2
+      -- regression guard for F21 (FAT12 `find_free` with start == end == 2 scanned on; repaired in 8aee7d6,
+      -- Props/C03fat `alloc_zero_clusters_regression`): fires on the implementation's answer if the defect returns
       if bits = 12 ∧ total = 0 ∧ n ≤ c then some s!"C03 alloc-fat12-zero-clusters returned={c} total=0"
       else if c < 2 ∨ n ≤ c then some s!"C03 alloc-bad-cluster returned={c} total={total}"
       else if specEntry bits f c ≠ 0 then some s!"C03 alloc-bad-cluster returned={c} not-free-before"
